@@ -270,7 +270,9 @@ fn worker_main(id: usize, built: Arc<Vec<Option<Built>>>, rx: Receiver<Cmd>, tx:
 		match cmd {
 			Cmd::Do(op) => {
 				let rc = w.exec(&op);
-				let keyfree = ThreadKey::get().is_some();
+				// a call that was cut because it would have to wait is still "running": the sentinel unwinding
+				// that ended it is the harness's doing, not an observation
+				let keyfree = if rc == "RBlockedC" { false } else { ThreadKey::get().is_some() };
 				tx.send((rc, keyfree)).unwrap();
 			}
 			Cmd::Quit => break,
